@@ -134,7 +134,7 @@ class UserAddNode(ActionGroup):
         if pixels is None:
             pos_key = tracks.features.position_key
             pos_keys = pos_key if isinstance(pos_key, list) else [pos_key]
-            if not all(key in attributes for key in pos_keys):
+            if not all(attributes.get(key) is not None for key in pos_keys):
                 raise ValueError(f"Must provide position or segmentation for node {node}")
         elif tracks.segmentation is not None and np.issubdtype(
             tracks.segmentation.dtype, np.integer
